@@ -153,8 +153,84 @@ def m_keyproto_encode(it, a, ty, callee):
     return res_ok(UNIT)
 
 
+# ---- Noise transport cipher (snow::TransportState behind NoiseContext) -------------------------------------------
+SNOW_MAXMSGLEN = 65535          # snow::constants::MAXMSGLEN
+TAGLEN = 16
+
+
+class CipherM(Model):
+    """transport-mode cipher state of one end: ciphertext = plaintext || 16-byte tag naming direction and nonce.
+    Contract modelled: length limits of snow, tag/nonce check on decryption (a frame that is truncated, replayed,
+    dropped or reordered fails), payload bytes pass through unchanged. AEAD integrity of the payload bytes
+    themselves is the cipher's guarantee and is not modelled."""
+    __slots__ = ('role', 'send', 'recv')
+    fields = ()
+
+    def __init__(self, role, send=0, recv=0):
+        self.role = role
+        self.send = send
+        self.recv = recv
+
+    def __repr__(self):
+        return 'Cipher(%s, send %d, recv %d)' % (self.role, self.send, self.recv)
+
+
+def _tag(direction, nonce):
+    return [Int(direction, 8), Int(nonce & 0xff, 8), Int((nonce >> 8) & 0xff, 8)] + [Int(0x5A, 8)] * (TAGLEN - 3)
+
+
+def m_cipher_pair(it, a, ty, callee):
+    C = 'crypto::noise::verif_hooks::Cipher'
+    from ..values import Tup
+    return Tup([Adt(C, 0, [CipherM(1)]), Adt(C, 0, [CipherM(2)])])
+
+
+def _snow_err():
+    return res_err(Adt('snow::Error', 0, ()))
+
+
+def m_noise_write(it, a, ty, callee):
+    sp, msg, out = a
+    c = it.load(sp)
+    if not isinstance(c, CipherM):
+        raise Inconclusive('NoiseContext::write_message on an unmodelled state %r' % (c,))
+    data = as_bytes(it, msg)
+    n = len(data)
+    room = out.win[1] if out.win is not None else len(it.load(out).fields)
+    if n + TAGLEN > SNOW_MAXMSGLEN or n + TAGLEN > room:
+        return _snow_err()
+    base = out.win[0] if out.win is not None else 0
+    it.store(Ptr(out.cell, out.path, (base, n + TAGLEN)), Seq(tuple(data) + tuple(_tag(c.role, c.send)), 'slice'))
+    it.store(sp, CipherM(c.role, c.send + 1, c.recv))
+    return res_ok(usize(n + TAGLEN))
+
+
+def m_noise_read(it, a, ty, callee):
+    sp, msg, out = a
+    c = it.load(sp)
+    if not isinstance(c, CipherM):
+        raise Inconclusive('NoiseContext::read_message on an unmodelled state %r' % (c,))
+    data = as_bytes(it, msg)
+    n = len(data)
+    room = out.win[1] if out.win is not None else len(it.load(out).fields)
+    if n < TAGLEN or n > SNOW_MAXMSGLEN or n - TAGLEN > room:
+        return _snow_err()
+    peer = 3 - c.role
+    ok = b_and(*[it.veq(x, y) for x, y in zip(data[n - TAGLEN:], _tag(peer, c.recv))])
+    if not it.branch(ok):
+        return _snow_err()
+    base = out.win[0] if out.win is not None else 0
+    if n > TAGLEN:
+        it.store(Ptr(out.cell, out.path, (base, n - TAGLEN)), Seq(tuple(data[:n - TAGLEN]), 'slice'))
+    it.store(sp, CipherM(c.role, c.send, c.recv + 1))
+    return res_ok(usize(n - TAGLEN))
+
+
 def install(it):
     A = it.add_model
+    A(r'crypto::noise::verif_hooks::cipher_pair', m_cipher_pair)
+    A(r'crypto::noise::NoiseContext::write_message', m_noise_write)
+    A(r'crypto::noise::NoiseContext::read_message', m_noise_read)
     A(r'crypto::ed25519::Keypair::generate', m_generate)
     A(r'crypto::ed25519::Keypair::public', m_public)
     A(r'crypto::ed25519::Keypair::sign', m_sign)
